@@ -270,6 +270,22 @@ func (e *panicEngine) run(r *core.Report, rule string, filter func(sink) bool) {
 				r.OK(rule, construct, pos, why)
 				continue
 			}
+			// the value of a variable has the variable's Go type (ScanToGo
+			// enforces it on assignment), except that $nil is stored into any
+			// nil-able type unless PtrVar.Set refuses it
+			if strings.HasPrefix(e.t.tainted[s.operand], "value of a variable") {
+				if !nilable(ta.AssertedType) {
+					r.OK(rule, construct, pos, "a variable of this Go type cannot hold $nil")
+					continue
+				}
+				if ok, why := ptrVarRefusesNil(e.p); ok {
+					r.OK(rule, construct, pos, why)
+					continue
+				} else {
+					r.Bad(rule, construct, pos, "the value of a typed variable is asserted to be "+types.TypeString(ta.AssertedType, shortQual)+" without the comma-ok form, and "+why+": `set <variable> = $nil` then crashes the interpreter here")
+					continue
+				}
+			}
 		}
 		facts := e.fe.at(s.operand, s.ins, 0)
 		var missing []string
@@ -400,22 +416,31 @@ func (e *panicEngine) runVariadicIndex(r *core.Report, rule string) {
 func init() {
 	register(&core.Spec{
 		ID: "C17",
-		Explanation: "Decides a necessary condition of C17's 'never kills the process with a runtime panic' clause: (PANIC-SINK) for every Go function registered as an Elvish command (discovered from the registration maps), every special-form operand, every value read from the input stream and every value produced by evaluating an expression, no such script-controlled value reaches a panic-prone operation - slice/array/string index or slice bound, make size, integer division, signed shift, non-comma-ok type assertion, or a library call that panics on argument values (strings.Repeat, rand.Intn, strconv.FormatInt base, big.Rat.Inv/Quo/SetFrac, big.Int division family, flag.FlagSet.Var names, ...) - unless dominating checks establish the facts that make it safe (both bounds for an index, non-negative and bounded for a size, non-zero for a divisor, range for a base, ...). Facts flow interprocedurally from call sites into parameters and captured variables. (VARIADIC-INDEX) a constant index into the variadic argument list of a command needs a dominating len(args) check. Sinks that are safe for a reason outside the function are listed in an audit table, one reason each, keyed by construct and by the exact facts that could not be established. Nil dereferences, untainted indices, unbounded resource use and the no-deadlock clause are not decided.",
-		NotCovered:  "nil dereferences; panics not driven by a script-controlled scalar; resource exhaustion (huge exponents, unbounded allocation through library calls); the 'never hangs' clause; index arithmetic inside pkg/eval/vals is audited, not proven (C13)",
-		Rules:       []string{"PANIC-SINK: taint from script-controlled values to panic-prone operations, discharged by dominating guard facts (interprocedural)", "VARIADIC-INDEX: constant index into a command's variadic arguments needs a len check", "GLOBAL-MAP-WRITE: package-level maps of pkg/eval and pkg/mods are written after initialisation only under a write lock (unsynchronised map writes abort the process)", "RLOCK-WRITE: nothing guarded by an RWMutex is written under its read lock"},
+		Explanation: "Decides a necessary condition of C17's 'never kills the process with a runtime panic' clause: (PANIC-SINK) for every Go function registered as an Elvish command (discovered from the registration maps), every special-form operand, every value read from the input stream and every value produced by evaluating an expression, no such script-controlled value reaches a panic-prone operation - slice/array/string index or slice bound, make size, integer division, signed shift, non-comma-ok type assertion, or a library call that panics on argument values (strings.Repeat, rand.Intn, strconv.FormatInt base, big.Rat.Inv/Quo/SetFrac, big.Int division family, flag.FlagSet.Var names, ...) - unless dominating checks establish the facts that make it safe (both bounds for an index, non-negative and bounded for a size, non-zero for a divisor, range for a base, ...). Facts flow interprocedurally from call sites into parameters and captured variables. (VARIADIC-INDEX) a constant index into the variadic argument list of a command needs a dominating len(args) check. (RESULT-INDEX) an element access on a list of values handed back by the interpreter (vals.Collect, Frame.CaptureOutput) is within a length proven on every path. (NIL-ARG) every parameter of a registered command for which argument conversion accepts $nil - pointer, non-empty interface, map and func types, and the elements of a variadic parameter of such a type - is compared with nil before any method call, field access, dereference, call or map write on it, followed through local cells, closures and calls of repository functions. Sinks that are safe for a reason outside the function are listed in an audit table, one reason each, keyed by construct and by the exact facts that could not be established. Other nil dereferences, untainted indices, unbounded resource use and the no-deadlock clause are not decided.",
+		NotCovered:  "nil dereferences other than of $nil command arguments (NIL-ARG does not follow a nil argument stored in a value that outlives the call); panics not driven by a script-controlled scalar; resource exhaustion (huge exponents, unbounded allocation through library calls); the 'never hangs' clause; index arithmetic inside pkg/eval/vals is audited, not proven (C13)",
+		Rules:       []string{"PANIC-SINK: taint from script-controlled values to panic-prone operations, discharged by dominating guard facts (interprocedural)", "VARIADIC-INDEX: constant index into a command's variadic arguments needs a len check", "GLOBAL-MAP-WRITE: package-level maps of pkg/eval and pkg/mods are written after initialisation only under a write lock (unsynchronised map writes abort the process)", "RLOCK-WRITE: nothing guarded by an RWMutex is written under its read lock", "RESULT-INDEX: an element access on a value list returned by the interpreter (vals.Collect, Frame.CaptureOutput) is within a length proven on every path", "NIL-ARG: a command parameter for which vals.ScanToGo accepts $nil (pointer, non-empty interface, map, func; elements of such a variadic parameter) is compared with nil before any use that needs it, in the command, its closures and the repository functions it is passed to"},
 		Run: func(p *core.Program, r *core.Report) {
 			e := newPanicEngine(p)
 			e.run(r, "PANIC-SINK", nil)
 			e.runVariadicIndex(r, "VARIADIC-INDEX")
 			runGlobalMapWrite(p, r)
+			runConstIndex(p, r)
+			runNilArg(p, r, e.entries)
 			runRLockWrite(p, r, "RLOCK-WRITE")
 		},
-		MinCounts: map[string]int{"PANIC-SINK": 15, "VARIADIC-INDEX": 2},
+		MinCounts: map[string]int{"PANIC-SINK": 15, "VARIADIC-INDEX": 2, "RESULT-INDEX": 8, "NIL-ARG": 25},
 		Trusted:   append([]string{"the table of argument-panicking library functions and the audit table in sa/internal/rules/c17.go"}, trustedBase...),
 		Controls: []core.Control{
 			{Name: "unlocked-pattern-cache", Rule: "GLOBAL-MAP-WRITE", File: "pkg/mods/re/re.go", Old: "func makePattern(p string, posix, longest bool) (*regexp.Regexp, error) {\n\tpattern, err := compile(p, posix)\n\tif err != nil {\n\t\treturn nil, err\n\t}\n", New: "var patternCache = map[string]*regexp.Regexp{}\n\nfunc makePattern(p string, posix, longest bool) (*regexp.Regexp, error) {\n\tif c, ok := patternCache[p]; ok && !posix && !longest {\n\t\treturn c, nil\n\t}\n\tpattern, err := compile(p, posix)\n\tif err != nil {\n\t\treturn nil, err\n\t}\n\tif !posix && !longest {\n\t\tpatternCache[p] = pattern\n\t}\n", Fire: true, Want: "patternCache"},
 			{Name: "read-locked-pattern-cache", Rule: "RLOCK-WRITE", File: "pkg/mods/re/re.go", Old: "func makePattern(p string, posix, longest bool) (*regexp.Regexp, error) {\n\tpattern, err := compile(p, posix)\n\tif err != nil {\n\t\treturn nil, err\n\t}\n", New: "var patternCache = map[string]*regexp.Regexp{}\nvar patternCacheMutex sync.RWMutex\n\nfunc makePattern(p string, posix, longest bool) (*regexp.Regexp, error) {\n\tpatternCacheMutex.RLock()\n\tdefer patternCacheMutex.RUnlock()\n\tif c, ok := patternCache[p]; ok && !posix && !longest {\n\t\treturn c, nil\n\t}\n\tpattern, err := compile(p, posix)\n\tif err != nil {\n\t\treturn nil, err\n\t}\n\tif !posix && !longest {\n\t\tpatternCache[p] = pattern\n\t}\n", Edits: [][2]string{{"\t\"strings\"\n", "\t\"strings\"\n\t\"sync\"\n"}}, Fire: true, Want: "patternCache"},
 			{Name: "benign-write-locked-pattern-cache", Rule: "GLOBAL-MAP-WRITE", File: "pkg/mods/re/re.go", Old: "func makePattern(p string, posix, longest bool) (*regexp.Regexp, error) {\n\tpattern, err := compile(p, posix)\n\tif err != nil {\n\t\treturn nil, err\n\t}\n", New: "var patternCache = map[string]*regexp.Regexp{}\nvar patternCacheMutex sync.Mutex\n\nfunc makePattern(p string, posix, longest bool) (*regexp.Regexp, error) {\n\tpatternCacheMutex.Lock()\n\tdefer patternCacheMutex.Unlock()\n\tif c, ok := patternCache[p]; ok && !posix && !longest {\n\t\treturn c, nil\n\t}\n\tpattern, err := compile(p, posix)\n\tif err != nil {\n\t\treturn nil, err\n\t}\n\tif !posix && !longest {\n\t\tpatternCache[p] = pattern\n\t}\n", Edits: [][2]string{{"\t\"strings\"\n", "\t\"strings\"\n\t\"sync\"\n"}}, Fire: false},
+			{Name: "revert-fix-each-nil", Rule: "NIL-ARG", File: "pkg/eval/builtin_fn_flow.go", Old: "func each(fm *Frame, f Callable, inputs Inputs) error {\n\tif f == nil {\n\t\treturn errs.BadValue{What: \"function\", Valid: \"function\", Actual: \"$nil\"}\n\t}\n", New: "func each(fm *Frame, f Callable, inputs Inputs) error {\n", Fire: true, Want: "eval:each", Quick: true},
+			{Name: "revert-fix-run-parallel-nil", Rule: "NIL-ARG", File: "pkg/eval/builtin_fn_flow.go", Old: "\tfor _, function := range functions {\n\t\tif function == nil {\n\t\t\treturn errs.BadValue{What: \"function\", Valid: \"function\", Actual: \"$nil\"}\n\t\t}\n\t}\n", New: "", Fire: true, Want: "run-parallel"},
+			{Name: "revert-fix-multi-error-nil", Rule: "NIL-ARG", File: "pkg/eval/builtin_fn_flow.go", Old: "\tfor _, exc := range excs {\n\t\tif exc == nil {\n\t\t\treturn errs.BadValue{What: \"exception\", Valid: \"exception\", Actual: \"$nil\"}\n\t\t}\n\t}\n", New: "", Fire: true, Want: "multi-error"},
+			{Name: "nil-check-after-use", Rule: "NIL-ARG", File: "pkg/mods/flag/flag.go", Old: "\tif fn == nil {\n\t\treturn errs.BadValue{What: \"function to call\", Valid: \"function\", Actual: \"$nil\"}\n\t}\n\tif argsVal == nil {", New: "\tif len(fn.OptNames) > 64 {\n\t\treturn errs.BadValue{What: \"function to call\", Valid: \"function with at most 64 options\", Actual: \"more\"}\n\t}\n\tif fn == nil {\n\t\treturn errs.BadValue{What: \"function to call\", Valid: \"function\", Actual: \"$nil\"}\n\t}\n\tif argsVal == nil {", Fire: true, Want: "flag:call"},
+			{Name: "benign-nil-check-in-helper-order", Rule: "NIL-ARG", File: "pkg/eval/builtin_fn_time.go", Old: "func timeCmd(fm *Frame, opts timeOpt, f Callable) error {\n\tif f == nil {\n\t\treturn errs.BadValue{What: \"function\", Valid: \"function\", Actual: \"$nil\"}\n\t}\n", New: "func timeCmd(fm *Frame, opts timeOpt, f Callable) error {\n\tif f != nil {\n\t\treturn timeIt(fm, opts, f)\n\t}\n\treturn errs.BadValue{What: \"function\", Valid: \"function\", Actual: \"$nil\"}\n}\n\nfunc timeIt(fm *Frame, opts timeOpt, f Callable) error {\n", Fire: false},
+			{Name: "revert-fix-typed-var-nil", Rule: "PANIC-SINK", File: "pkg/eval/vars/ptr.go", Old: "\tif val == nil {\n\t\tt := reflect.TypeOf(v.ptr).Elem()\n\t\tif t.Kind() != reflect.Interface || t.NumMethod() > 0 {\n\t\t\treturn errCannotSetToNil\n\t\t}\n\t}\n", New: "", Fire: true, Want: "NewEvaler"},
+			{Name: "collect-length-believed", Rule: "RESULT-INDEX", File: "pkg/eval/builtin_fn_container.go", Old: "\t\tif len(elems) != 2 {\n\t\t\terrMakeMap = fmt.Errorf(\"internal bug: collected %v values\", len(elems))\n\t\t\treturn\n\t\t}\n", New: "", Fire: true, Want: "makeMap"},
 			{Name: "revert-fix-negative-fd", Rule: "PANIC-SINK", File: "pkg/eval/compile_effect.go", Old: "if dst < 0 || dst > maxRedirFD {", New: "if dst > maxRedirFD {", Fire: true, Want: "growAccess", Quick: true},
 			{Name: "revert-fix-huge-fd", Rule: "PANIC-SINK", File: "pkg/eval/compile_effect.go", Old: "if dst < 0 || dst > maxRedirFD {", New: "if dst < 0 {", Fire: true, Want: "growAccess make"},
 			{Name: "revert-fix-src-fd", Rule: "PANIC-SINK", File: "pkg/eval/compile_effect.go", Old: "case src < 0 || src >= len(fm.ports) || fm.ports[src] == nil:", New: "case src >= len(fm.ports) || fm.ports[src] == nil:", Fire: true, Want: "redirOp"},
